@@ -32,9 +32,10 @@ import json,sys
 id,c,m=sys.argv[1:4]
 p=f'/verif/seeded/{id}/meta.json'
 meta=json.load(open(p))
-s=set(meta.get("caught_by",[]))|set(c.split())
-meta["caught_by"]=sorted(s)
-meta["not_caught_by"]=sorted((set(meta.get("not_caught_by",[]))|set(m.split()))-s)
+# the latest outcome of a check replaces its earlier one; checks not run this time keep theirs
+ran=set(c.split())|set(m.split())
+meta["caught_by"]=sorted((set(meta.get("caught_by",[]))-ran)|set(c.split()))
+meta["not_caught_by"]=sorted((set(meta.get("not_caught_by",[]))-ran)|set(m.split()))
 import os
 if os.environ.get("RWITH"):
     meta["replay_of_first_violation"]={"with_change":os.environ.get("RWITH"),"on_unchanged_tree":os.environ.get("RWITHOUT","")}
